@@ -26,9 +26,9 @@ using namespace chaiscript;
 
 namespace {
 
-  enum Ty { INT, DBL, BOOL, STR, BASE, DERIVED, OTHER, VEC, FN, ANY, NUM, CHR, UNDEF, N_TY };
+  enum Ty { INT, DBL, BOOL, STR, BASE, DERIVED, OTHER, VEC, FN, ANY, NUM, CHR, UNDEF, FN2, N_TY };
   enum Form { VAL, CREF, REF, PTR, CPTR, SP, SPC, RREF, N_FORM };
-  const char *ty_names[] = {"int", "double", "bool", "string", "Base", "Derived", "Other", "Vector", "function", "Boxed_Value", "Boxed_Number", "char", "undefined"};
+  const char *ty_names[] = {"int", "double", "bool", "string", "Base", "Derived", "Other", "Vector", "function", "Boxed_Value", "Boxed_Number", "char", "undefined", "function of two"};
   const char *form_names[] = {"T", "const T&", "T&", "T*", "const T*", "shared_ptr<T>", "shared_ptr<const T>", "T&&"};
 
   struct Base6 {
@@ -84,6 +84,16 @@ namespace {
       return "fn:bad_boxed_cast";
     } catch (const std::exception &e) {
       return std::string("fn:exception:") + typeid(e).name();
+    }
+  }
+
+  std::string desc(const std::function<int(int, int)> &f) {
+    try {
+      return "fn2:" + std::to_string(f(3, 4));
+    } catch (const exception::bad_boxed_cast &) {
+      return "fn2:bad_boxed_cast";
+    } catch (const std::exception &e) {
+      return std::string("fn2:exception:") + typeid(e).name();
     }
   }
 
@@ -182,8 +192,11 @@ namespace {
         /*42*/ sig1_throwing<const std::string &>({STR, CREF}),
         /*43*/ sig1<std::string &&>({STR, RREF}),
         /*44*/ sig1<int &&>({INT, RREF}),
+        /*45*/ sig1<const std::function<int(int, int)> &>({FN2, CREF}),
+        /*46*/ sig2<const std::function<int(int, int)> &, int>({FN2, CREF}, {INT, VAL}),
+        /*47*/ sig2<const std::function<int(int)> &, int>({FN, CREF}, {INT, VAL}),
         // never generated: body raises bad_boxed_cast itself — known finding C06-K1 (always the LAST entry)
-        /*45*/ sig1_throwing<const Base6 &, true>({BASE, CREF}),
+        /*48*/ sig1_throwing<const Base6 &, true>({BASE, CREF}),
     };
     return c;
   }
@@ -220,10 +233,18 @@ namespace {
         {"fun(x) { neg_char() }", FN, false, true, "fn:-61", 0},
         // a declared but never assigned variable: no type at all; only a Boxed_Value parameter may receive it
         {"vu", UNDEF, false, false, "undefined", 0},
+        // script functions by arity: a std::function<int(int)> parameter takes the one-parameter ones, std::function<int(int,int)>
+        // the two-parameter ones; a bound function counts by the placeholders it leaves open, not by what it wraps
+        {"fun(x, y) { x + y }", FN2, false, true, "fn2:7", 0},
+        {"bind(fun(x, y) { x + y }, _, 5)", FN, false, true, "fn:8", 0},
+        {"bind(fun(x, y, z) { x + y + z }, _, 1, _)", FN2, false, true, "fn2:8", 0},
+        {"bind(fun(x, y) { x * y }, 2, _)", FN, false, true, "fn:6", 0},
+        // a shared_ptr-held object the actor re-seats now and then through a C++ function taking shared_ptr<Base>&
+        {"vrs", BASE, false, true, "obj:@", 0},
     };
     return a;
   }
-  const char *ACTOR_PRELUDE = "var vu; var vi = 7; var vd = 1.5; var vs = \"abc\"; var vb = Base(11); var vder = Derived(22); var voth = Other(33);";
+  const char *ACTOR_PRELUDE = "var vu; var vi = 7; var vd = 1.5; var vs = \"abc\"; var vb = Base(11); var vder = Derived(22); var voth = Other(33); var vrs = Base(55);";
 
   bool arithmetic(Ty t) { return t == INT || t == DBL || t == CHR; }
 
@@ -324,10 +345,12 @@ namespace {
           op["slot"] = J(int(plan.below(2)));
           op["args"] = J::array();
           op["args"].push(J(int(plan.below(nargs))));
+        } else if (k == 7 && plan.chance(500)) {
+          op["k"] = J("reseat"); // the actor's variable vrs is made to point at a new object
         } else if (k == 6) {
           op["k"] = J("cast");
           op["arg"] = J(int(plan.below(nargs)));
-          op["to"] = J(int(plan.below(10)));
+          op["to"] = J(int(plan.below(12)));
         } else {
           op["k"] = J("call");
           const int name = int(plan.below(uint64_t(n_names)));
@@ -380,6 +403,7 @@ namespace {
       e.add(constructor<Other6(int)>(), "Other");
       e.add(fun([]() -> const Base6 & { return the_const_base; }), "const_base");
       e.add(fun([]() { return static_cast<char>(-61); }), "neg_char");
+      e.add(fun([](std::shared_ptr<Base6> &p, int id) { p = std::make_shared<Base6>(id); }), "reseat_base");
 
       std::vector<std::vector<size_t>> mine(static_cast<size_t>(T));
       for (size_t i = 0; i < ops.size(); ++i) {
@@ -403,7 +427,9 @@ namespace {
         case 6: return desc(e.boxed_cast<bool>(bv));
         case 7: return desc(e.boxed_cast<const Derived6 &>(bv));
         case 8: return desc(e.boxed_cast<const Base6 *>(bv));
-        default: return desc(e.boxed_cast<const int *>(bv));
+        case 9: return desc(e.boxed_cast<const int *>(bv));
+        case 10: return desc(e.boxed_cast<std::function<int(int)>>(bv));
+        default: return desc(e.boxed_cast<std::function<int(int, int)>>(bv));
         }
       };
 
@@ -455,12 +481,14 @@ namespace {
               } else {
                 out = eval_show(e, var + "(" + args[size_t(op.at("args")[0].num()) % args.size()].expr + ")");
               }
+            } else if (k == "reseat") {
+              out = eval_show(e, "reseat_base(vrs, " + std::to_string(600 + oi) + ")");
             } else if (k == "cast") {
               const Arg &arg = args[size_t(op.at("arg").num()) % args.size()];
               try {
                 Boxed_Value bv = e.eval(arg.expr);
                 try {
-                  out = "=" + do_cast(int(op.at("to").num()) % 10, bv);
+                  out = "=" + do_cast(int(op.at("to").num()) % 12, bv);
                 } catch (const exception::bad_boxed_cast &) {
                   out = "!bad_boxed_cast";
                 }
@@ -522,6 +550,26 @@ namespace {
         }
         return nullptr;
       };
+      // which object the actor's re-seatable variable refers to when each of its operations runs
+      std::vector<int> vrs_id(ops.size(), 55);
+      {
+        std::vector<int> cur(size_t(T), 55);
+        for (size_t oi = 0; oi < ops.size(); ++oi) {
+          const int a = int(ops[oi].at("a").num());
+          if (a < 0 || a >= T) {
+            continue;
+          }
+          vrs_id[oi] = cur[size_t(a)];
+          if (ops[oi].at("k").str() == "reseat") {
+            if (res[oi].out == "=void") {
+              cur[size_t(a)] = int(600 + oi);
+              r.counters["probe_shared_ptr_variable_reseated"] += 1;
+            } else {
+              r.fail("unexpected-result", "op " + std::to_string(oi) + " reseat_base(vrs, ..) -> " + res[oi].out);
+            }
+          }
+        }
+      }
       for (size_t oi = 0; oi < ops.size(); ++oi) {
         const J &op = ops[oi];
         const int a = int(op.at("a").num());
@@ -530,11 +578,16 @@ namespace {
         }
         const std::string k = op.at("k").str();
         const OpResult &R = res[oi];
+        auto fix = [&](std::string &expected) {
+          if (expected == "obj:@") {
+            expected = "obj:" + std::to_string(vrs_id[oi]);
+          }
+        };
         auto bad = [&](const std::string &rule, const std::string &why) { r.fail(rule, "op " + std::to_string(oi) + " " + op.dump() + " -> " + R.out + ": " + why); };
         if (k == "cast") {
           const Arg &arg = args[size_t(op.at("arg").num()) % args.size()];
-          static const Param targets[10] = {{INT, VAL}, {DBL, VAL}, {STR, VAL}, {BASE, CREF}, {BASE, REF}, {BASE, SP}, {BOOL, VAL}, {DERIVED, CREF}, {BASE, CPTR}, {INT, CPTR}};
-          const Param &tp = targets[op.at("to").num() % 10];
+          static const Param targets[12] = {{INT, VAL}, {DBL, VAL}, {STR, VAL}, {BASE, CREF}, {BASE, REF}, {BASE, SP}, {BOOL, VAL}, {DERIVED, CREF}, {BASE, CPTR}, {INT, CPTR}, {FN, VAL}, {FN2, VAL}};
+          const Param &tp = targets[op.at("to").num() % 12];
           std::string expected;
           // the conversion may have been registered at any time up to the end of this cast
           const bool conv_possible = conv_inv <= R.ret;
@@ -544,7 +597,7 @@ namespace {
           } else if (R.out[0] == '=') {
             if (!allowed(tp, arg, conv_possible, expected)) {
               bad("cast-handed-out-wrong-type", std::string("boxed_cast<") + form_names[tp.form] + " of " + ty_names[tp.ty] + "> succeeded on a " + (arg.is_const ? "const " : "") + ty_names[arg.ty]);
-            } else if (R.out.substr(1) != expected) {
+            } else if (fix(expected), R.out.substr(1) != expected) {
               bad("cast-value-differs", "expected " + expected);
             }
             r.counters["casts_succeeded"] += 1;
@@ -610,7 +663,7 @@ namespace {
             if (!allowed(sg.params[q], *call_args[q], conv_possible, expected)) {
               bad("entered-with-unrelated-argument", std::string("parameter ") + std::to_string(q) + " is " + form_names[sg.params[q].form] + " of " + ty_names[sg.params[q].ty] + ", argument is "
                                                          + (call_args[q]->is_const ? "const " : "") + ty_names[call_args[q]->ty]);
-            } else if (expected.find('*') == std::string::npos && en.received[q] != expected) {
+            } else if (fix(expected), expected.find('*') == std::string::npos && en.received[q] != expected) {
               bad("received-value-differs", "parameter " + std::to_string(q) + " received " + en.received[q] + ", the script value is " + expected);
             }
             if (!exact(sg.params[q], *call_args[q])) {
